@@ -610,3 +610,43 @@ fn detection_judges_the_same_thing_from_a_slice_and_from_a_reader() {
 	}
 	assert!(bad.is_empty(), "{} violations, first: {:?}", bad.len(), &bad[..bad.len().min(3)]);
 }
+
+#[test]
+fn detection_skips_a_candidate_that_runs_out_of_input() {
+	// every proper prefix of a document that opens a collection: no format can claim it with a complete first value
+	// from the start, so the only acceptable outcomes are success (some other format accepts the prefix) or the one
+	// detection error - never a parser's own complaint about the end of the input
+	let docs: [&[u8]; 6] = [
+		b"{\"xt\": [1, 2, {\"k\": \"v\"}], \"b\": true}",
+		b"[[1, 2], [3, [4, 5]], \"s\"]",
+		b"[\"a\\u00e9\", 1.5e3, null]",
+		&[0x93, 0x01, 0x92, 0x02, 0xa3, b'a', b'b', b'c', 0x81, 0xa1, b'k', 0xcb, 1, 2, 3, 4, 5, 6, 7, 8],
+		&[0xdc, 0x00, 0x03, 0xcd, 0x01, 0x00, 0xd9, 0x02, b'h', b'i', 0xc0],
+		&[0xde, 0x00, 0x01, 0xa1, b'k', 0xdd, 0x00, 0x00, 0x00, 0x01, 0xc3],
+	];
+	struct Tiny<'a>(&'a [u8], usize);
+	impl<'a> Read for Tiny<'a> {
+		fn read(&mut self, b: &mut [u8]) -> io::Result<usize> {
+			let n = self.1.min(self.0.len()).min(b.len());
+			b[..n].copy_from_slice(&self.0[..n]);
+			self.0 = &self.0[n..];
+			Ok(n)
+		}
+	}
+	let mut bad = vec![];
+	for doc in docs {
+		for k in 1..doc.len() {
+			let prefix = &doc[..k];
+			let r1 = xt::translate_slice(prefix, None, Format::Json, io::sink()).map_err(|e| e.to_string());
+			let r2 = xt::translate_reader(Tiny(prefix, 2), None, Format::Json, io::sink()).map_err(|e| e.to_string());
+			for (how, r) in [("slice", &r1), ("reader", &r2)] {
+				if let Err(m) = r {
+					if m != "unable to detect input format" && (m.contains("EOF") || m.contains("end of") || m.contains("fill whole buffer") || m.contains("unexpected end")) {
+						bad.push(format!("prefix {:02x?} ({how}): detection fails with {m:?}", prefix));
+					}
+				}
+			}
+		}
+	}
+	assert!(bad.is_empty(), "{} violations, first: {:?}", bad.len(), &bad[..bad.len().min(3)]);
+}
